@@ -12,13 +12,13 @@ def build_bins():
     out = {}
     src = os.path.join(ROOT, "engine", "threads", "c18_threads.cpp")
     eng = os.path.join(ROOT, "engine")
-    for flav, san in (("tsan", "-fsanitize=thread"), ("asan", build.SAN + " -fno-sanitize=enum")):
+    for flav, san in (("tsan", "-fsanitize=thread"), ("asan", build.SAN + " -fno-sanitize=enum"), ("plain", "-O2")):
         d, changed = build.build_lib(flav)
         exe = os.path.join(B, "c18_" + flav)
         dg = build.digest([src] + [os.path.join(eng, h) for h in ("prog.hpp", "gen.hpp", "lines.hpp", "intent.hpp", "x86dec.hpp", "al.hpp", "harness.hpp")], open(os.path.join(d, "stamp")).read() + san)
         st = exe + ".stamp"
         if not (os.path.exists(exe) and os.path.exists(st) and open(st).read() == dg):
-            build.sh(f"clang++ -std=gnu++17 -O1 -g {san} -I{build.REPO}/src -I{eng} {src} {' '.join(build.lib_objs(flav))} -lrapidcheck -lpthread -o {exe}")
+            build.sh(f"clang++ -std=gnu++17 -O1 -g {san} -Wno-deprecated-declarations -I{build.REPO}/src -I{eng} {src} {' '.join(build.lib_objs(flav))} -lrapidcheck -lpthread -o {exe}")
             open(st, "w").write(dg)
         out[flav] = exe
     return out
@@ -30,6 +30,7 @@ def one(exe, flav, seed, nth, nops, rounds, limit=150, first=False):
     env["ASAN_OPTIONS"] = "detect_leaks=0:abort_on_error=0:exitcode=99"
     env["UBSAN_OPTIONS"] = "halt_on_error=1:exitcode=98"
     env["VERIF_ROOT"] = ROOT
+    env["LD_BIND_NOW"] = "1"
     try:
         r = subprocess.run([exe, str(seed), str(nth), str(nops), str(rounds)] + (["threads-first"] if first else []), env=env, stdout=subprocess.PIPE, stderr=subprocess.PIPE, text=True, errors="replace", timeout=limit)
     except subprocess.TimeoutExpired:
@@ -99,19 +100,23 @@ def run(prop, tier, seed, jobs):
                 json.dump({"property": "C18", "flavour": flav, "seed": seed * 100 + nth, "threads": nth, "ops": nops, "rounds": rounds, "symptom": what[0], "detail": what[1], "recurred": again}, open(p, "w"), indent=1)
                 violations.append({"symptom": what[0], "detail": what[1], "replay": p})
     # fresh processes whose very first use of the library is concurrent (first asm_create_instance calls racing)
-    nfresh = 40 if tier == "quick" else 400
+    nfresh = 400 if tier == "quick" else 4000
     fresh_bad = []; fresh_evals = 0
     for k in range(nfresh):
-        flav = "tsan" if k % 2 == 0 else "asan"
-        res = one(bins[flav], flav, seed * 1000 + k, 8 + 8 * (k % 2), 2, 1, 60, True)
+        flav = "tsan" if k % 50 == 0 else "asan" if k % 50 == 25 else "plain"   # mostly the uninstrumented build: its threads start closest together
+        res = one(bins[flav], flav, seed * 1000 + k, 8 + (k % 9), 1 + (k % 2), 1, 60, True)
         j = res.get("json") if not res.get("timeout") else None
         if j:
             fresh_evals += j["evaluations"]
         if res.get("timeout") or res.get("races") or res.get("sanitizer") or (j and j["mismatches"]) or (not j and not res.get("timeout")):
-            fresh_bad.append((flav, seed * 1000 + k, 8 + 8 * (k % 2), res))
+            fresh_bad.append((flav, seed * 1000 + k, 8 + (k % 9), res))
     evals += fresh_evals
-    samples.append("%d fresh processes (TSan/ASan alternating) whose first use of the library is 8-16 threads creating instances at once: %d results compared, %d processes with a report" % (nfresh, fresh_evals, len(fresh_bad)))
-    if len(fresh_bad) >= 2 or (len(fresh_bad) == 1 and nfresh < 100):
+    samples.append("%d fresh processes (plain, TSan and ASan builds) whose first use of the library is 8-16 threads creating instances at once: %d results compared, %d processes with a report" % (nfresh, fresh_evals, len(fresh_bad)))
+    # a result that differs from the single-threaded reference is conclusive on its own; timeouts / abnormal exits must recur
+    hard = [x for x in fresh_bad if (x[3].get("json") or {}).get("mismatches") or x[3].get("races") or x[3].get("sanitizer")]
+    if hard:
+        fresh_bad = hard + [x for x in fresh_bad if x not in hard]
+    if hard or len(fresh_bad) >= 2:
         flav, sd, nth, res = fresh_bad[0]
         det = (res.get("races") or [None])[0] or res.get("sanitizer") or ((res.get("json") or {}).get("first")) or "abnormal exit / timeout"
         d = os.path.join(ROOT, "replays", "C18"); os.makedirs(d, exist_ok=True)
